@@ -150,6 +150,15 @@ pub fn rec_text(a: &Args, out: &mut Out) {
             3 => (0..tc.min(90)).map(|_| char::from_u32(r.gen_range(0x800..0xD800)).unwrap()).collect(),
             _ => (0..tc.min(70)).map(|_| char::from_u32(r.gen_range(0x10000..0x110000)).unwrap()).collect(),
         };
+        // more than 127 characters within 255 bytes is only possible with mostly one-byte characters; mix in a few wide ones
+        let s: String = if k % 7 == 3 {
+            let wide = ['\u{1F600}', '\u{10000}', '漢', 'é', '\u{10ffff}'];
+            let total = 124 + (k / 7) % 8; // 124..=131 characters
+            let nw = 1 + (k / 56) % 3;
+            (0..total).map(|i| if i % (total / nw) == total / nw - 1 { wide[(i + k) % wide.len()] } else { (b'a' + (i % 26) as u8) as char }).collect()
+        } else {
+            s
+        };
         if let Some(Message::Msg1029(t)) = &t1029 {
             let t = match guarded(|| {
                 let mut t = t.clone();
